@@ -129,18 +129,36 @@ def audit(theorems: list[str], imports: list[str]):
 
 # ---------------------------------------------------------------- model driver
 
-def run_model(lines: list[str]) -> list[str]:
-    if not lines:
-        return []
-    for l in lines:
-        assert "\n" not in l
+def _run_model_chunk(lines: list[str]) -> list[str]:
     p = subprocess.run([MODEL_EXE], input="\n".join(lines) + "\n", capture_output=True, text=True,
-                       timeout=3600)
+                       timeout=7200)
     out = p.stdout.split("\n")
     if out and out[-1] == "":
         out.pop()
     if p.returncode != 0 or len(out) != len(lines):
         raise RuntimeError(f"model driver failed rc={p.returncode} got {len(out)} lines for {len(lines)}: {p.stderr[:500]}")
+    return out
+
+MODEL_JOBS = max(1, min(12, (os.cpu_count() or 2) - 2))
+
+def run_model(lines: list[str]) -> list[str]:
+    """pipes the lines through the compiled model; long batches are split over several driver processes
+    (the driver is stateless: one line in, one line out), order preserved"""
+    if not lines:
+        return []
+    for l in lines:
+        assert "\n" not in l
+    if len(lines) < 64 or MODEL_JOBS == 1:
+        return _run_model_chunk(lines)
+    from concurrent.futures import ThreadPoolExecutor
+    k = min(MODEL_JOBS, max(1, len(lines) // 16))
+    # interleave so that expensive neighbouring lines are spread over the workers
+    chunks = [lines[i::k] for i in range(k)]
+    with ThreadPoolExecutor(max_workers=k) as ex:
+        res = list(ex.map(_run_model_chunk, chunks))
+    out = [None] * len(lines)
+    for i, r in enumerate(res):
+        out[i::k] = r
     return out
 
 # ---------------------------------------------------------------- text helpers
